@@ -6,10 +6,10 @@ use maybenot::verif::Step;
 use maybenot::{Framework, Machine, MachineId};
 use serde_json::json;
 
-use crate::drive::{apply_step, machines_json, trigger, Act, EvGen, Fw};
+use crate::drive::{apply_step, machines_json, trigger, Act, EvGen, FwR};
 use crate::gen::{fmt_events, gen_machine, gen_step, HCfg, MCfg};
 use crate::props::c08;
-use crate::util::{hash_of, xo, Pick, ScriptRng, VClock, Xo};
+use crate::util::{hash_of, xo, NoisyRng, Pick, VClock, Xo};
 use crate::{CaseCx, Out, Prop, Tier};
 
 #[derive(Default)]
@@ -83,7 +83,9 @@ impl Prop for C10 {
             unknown_ids: true,
         };
         out.evaluations += 1;
-        let mut combined: Fw<'_> = match Framework::new(&machines[..], 0.0, 0.0, start, ScriptRng::fair(rng_seed)) {
+        // the random streams are salted with extreme words and differ between the combined and the solo
+        // runs: with deterministic sampling no random word may matter
+        let mut combined: FwR<'_, NoisyRng> = match Framework::new(&machines[..], 0.0, 0.0, start, NoisyRng::new(rng_seed)) {
             Ok(f) => f,
             Err(e) => {
                 out.violation("C10/construction", format!("{e}"), json!({"machines": machines_json(&machines)}));
@@ -91,9 +93,10 @@ impl Prop for C10 {
             }
         };
         let solos: Vec<Vec<Machine>> = machines.iter().map(|m| vec![m.clone()]).collect();
-        let mut solo: Vec<Fw<'_>> = solos
+        let mut solo: Vec<FwR<'_, NoisyRng>> = solos
             .iter()
-            .map(|v| Framework::new(&v[..], 0.0, 0.0, start, ScriptRng::fair(rng_seed ^ 0x55)).unwrap())
+            .enumerate()
+            .map(|(i, v)| Framework::new(&v[..], 0.0, 0.0, start, NoisyRng::new(rng_seed ^ (0x55 + i as u64))).unwrap())
             .collect();
         let mut eg = EvGen::default();
         let mut now = start;
